@@ -41,8 +41,11 @@ OwnDataEqualWidth(r) ==
     /\ \A j \in 1..N(r) : Cardinality({t \in 1..K(r) : r.masks[t][j] = 1}) <= 1
 (* every interval with at least minpts own rows is kept, no other *)
 KeptExactlyEqualWidth(r) ==
+    (* own(k): rows inside the covered range that can only belong to k; maybe(k): all rows that may belong *)
+    (* to k - including rows beyond the upper limit of a value_range that still fall into the extent of   *)
+    (* the last interval (an implementation may or may not take those)                                    *)
     LET own(k) == Cardinality({j \in 1..N(r) : Cov(r, j) /\ Acc(r, j) = {k}})
-        maybe(k) == Cardinality({j \in 1..N(r) : Cov(r, j) /\ k \in Acc(r, j)})
+        maybe(k) == Cardinality({j \in 1..N(r) : k \in Acc(r, j)})
         kept == {KIdx(r, t) : t \in 1..K(r)}
     IN /\ \A k \in 1..(IdealK(r) + 1) : own(k) >= r.minpts /\ own(k) = maybe(k) => k \in kept
        /\ \A k \in kept : maybe(k) >= r.minpts
@@ -77,6 +80,8 @@ DimClauses(r) ==
                            IF r.kind2 = "points" THEN OwnDataPoints(r) ELSE OwnDataEqualWidth(r)>>,
     <<"KeptExactly", (\A t \in 1..K(r) : Len(r.masks[t]) = N(r)) =>
                            (r.kind2 = "points" \/ KeptExactlyEqualWidth(r))>>,
+    <<"BoundariesContainMembers", r.boundscontain>>,      \* exact float comparison with the documented open / closed ends
+    <<"BoundariesDisjoint", r.boundsdisjoint>>,
     <<"FitDataAreMaskedRows", \A t \in 1..Len(r.datamasked) : r.datamasked[t]>>,
     <<"IntervalCountConsistent", Len(r.datamasked) = K(r) /\ Len(r.standalone) = K(r) /\ Len(r.refq) = K(r)>>,
     <<"EstimateIsStandAloneFit", \A t \in 1..Len(r.standalone) : r.standalone[t]>>,
